@@ -472,7 +472,12 @@ def _interp_guard(f: Func, cfg: CFG, call: ast.Call, var: str, validators: Set[s
              isinstance(n.value, ast.JoinedStr) and any(isinstance(v, ast.Constant) and '`' in str(v.value) for v in n.value.values)]
     strips = [n for n in f.walk() if isinstance(n, ast.Assign) and any(isinstance(t, ast.Name) and t.id == var for t in n.targets) and
               isinstance(n.value, ast.Call) and call_name(n.value) == 'replace' and n.value.args and const_str(n.value.args[0]) == '\n']
-    neutralisers = [w for w in wraps if any(cfg.dominates(s_, w, no_exc=True) for s_ in strips)]
+    # an inline literal has no escape mechanism: the text must not be able to close it, so back-ticks have to be escaped (interpreted-text role +
+    # backslash) or removed before the wrap - otherwise what follows a "``" in the text is parsed as reST again
+    ticks = [n for n in f.walk() if isinstance(n, ast.Assign) and any(isinstance(t, ast.Name) and t.id == var for t in n.targets) and
+             any(isinstance(c, ast.Call) and call_name(c) == 'replace' and c.args and const_str(c.args[0]) == '`' for c in ast.walk(n.value))]
+    neutralisers = [w for w in wraps if any(cfg.dominates(s_, w, no_exc=True) for s_ in strips) and
+                    (any(cfg.dominates(t_, w, no_exc=True) or t_ is w for t_ in ticks))]
     safe_edges = [(nid, id(t), k) for nid, edges in cfg.succ.items() for (t, l, k) in edges if l is not None and safe(l[0], l[1])]
     if safe_edges or neutralisers:
         r = cfg.reachable(cfg.ENTRY, avoid_nodes=neutralisers, avoid_edges=safe_edges, no_exc=True)
@@ -494,4 +499,7 @@ def _interp_guard(f: Func, cfg: CFG, call: ast.Call, var: str, validators: Set[s
         idx = [p.arg for p in f.params()].index(var)
         if sites and all(len(c.args) > idx and isinstance(c.args[idx], ast.Attribute) and c.args[idx].attr == 'name' for c in sites):
             return True, 'name of the documented object (an identifier taken from the AST)'
+    if wraps and not neutralisers:
+        return False, (f'`{var}` is only wrapped in back-ticks when it is not an identifier: a text containing "``" closes the inline literal and the rest is parsed as '
+                       'reST (links with javascript: targets, emphasis, roles) - a decorator string argument becomes markup')
     return False, f'`{var}` is interpolated into reST without validation: source text can inject markup (e.g. a raw directive)'
